@@ -92,6 +92,10 @@ pub fn run_c16<C: NatCtx>(v: &mut Env<C>) {
         let nonce = v.rnd_exp();
         let base: Option<BigUint> = match i % 3 { 0 => None, 1 => Some(g.clone()), _ => Some(v.rnd_member()) };
         crate::p_c05::schnorr_case(v, &x, &nonce, &base, &label, false);
+        if i % 3 == 0 {
+            // the optional ciphertext context is part of the statement: no label makes up for its absence
+            crate::p_sigma::cross_protocol(v, &x, &label, !v.small);
+        }
         let bv = base.clone().unwrap_or_else(|| g.clone());
         let (be, xe) = (v.e(&bv), v.x(&x));
         let y = ctx.emod_pow(&be, &xe);
